@@ -220,7 +220,7 @@ class JanonEstimator(SobolEstimator):
 
         mu_ac = [(1. / nb_design) * np.sum(sampling_a + replication_c[i]) / 2.
                  for i in range(nb_dim)]
-        var   = [(1. / (nb_design - 1.)) * np.sum(sampling_a**2. + replication_c[i]**2.) /
+        var   = [(1. / nb_design) * np.sum(sampling_a**2. + replication_c[i]**2.) /
                   2. - mu_ac[i]**2. for i in range(nb_dim)]
 
         stis = [
